@@ -113,7 +113,7 @@ PROGFUZZ = {
                      "mean is only used on small integers (sums exact in f64) and cast to i32"],
     ),
     "C02": dict(
-        quick=dict(programs=72, cases=5), thorough=dict(programs=720, cases=12),
+        quick=dict(programs=120, cases=6), thorough=dict(programs=960, cases=12),
         level="exploration",
         rule=("Programs from the full grammar (relations, lattices, negation, aggregation), each printed as ascent! (reference form), "
               "ascent_par!, ascent_par! + #![inter_rule_parallelism] and (every third) ascent_run_par!. Every parallel form runs in "
@@ -245,7 +245,9 @@ def run_known_replays(prop, tier, seed, known, runner):
 
 
 def finish(prop, tier, seed, level, cov, assumptions, wall, violations, infra):
-    known = [k for k in load_known() if k.get("property") == prop and k.get("status") == "known"]
+    allk = [k for k in load_known() if k.get("property") == prop]
+    known = [k for k in allk if k.get("status") == "known"]
+    fixed = [k for k in allk if k.get("status") == "fixed"]
     new = []
     known_hits = {}
     # the trigger shapes of open findings are excluded by construction, so nothing the search reports is
@@ -270,6 +272,18 @@ def finish(prop, tier, seed, level, cov, assumptions, wall, violations, infra):
             status[k["id"]] = "fails differently: %s" % o.get("signature")
         else:
             status[k["id"]] = "committed replay passes on this tree"
+    for k in fixed:
+        o = replays.get(k["id"])
+        if o is None:
+            if k.get("replay"):
+                infra.append("fixed finding %s: committed regression replay was not executed" % k["id"])
+            continue
+        if o["failed"]:
+            new.append(dict(property=prop, base=k["id"], signature=o.get("signature"), failures=o.get("failures"),
+                            program_text="(regression: the committed replay of fixed finding %s fails again)" % k["id"], input_text=""))
+            status[k["id"]] = "REGRESSION: %s" % o.get("signature")
+        else:
+            status[k["id"]] = "fixed; regression replay passes"
     cov["known_finding_hits"] = known_hits
     cov["known_finding_replays"] = status
     write_evidence(prop, tier, seed, level, cov, assumptions, wall, len(new))
